@@ -238,7 +238,7 @@ func hostileCase(c *Ctx, buf []byte, desc func() string, pre int) {
 }
 
 func gobLayers(tier string) []Layer {
-	_ = tier
+	thorough4 := tier == "thorough" // thorough: every 4-byte payload, not only those starting with the version byte
 	var layers []Layer
 	var srcs []*Dec
 	nsrc := len(gobSources(tier))
@@ -337,7 +337,8 @@ func gobLayers(tier string) []Layer {
 	layers = append(layers, Layer{
 		Name:   "J2-all-short-payloads",
 		Units:  258,
-		Bounds: "every byte string of length 0..3 (16 843 009 payloads) and every 4-byte string starting with the valid version byte 01 (16 777 216 more) decoded into a zero-value receiver: no panic; error or canonical receiver",
+		Bounds: map[bool]string{false: "every byte string of length 0..3 (16 843 009 payloads) and every 4-byte string starting with the valid version byte 01 (16 777 216 more) decoded into a zero-value receiver: no panic; error or canonical receiver",
+			true: "every byte string of length 0..4 (4 311 810 305 payloads) decoded into a zero-value receiver: no panic; error or canonical receiver"}[thorough4],
 		Run: func(c *Ctx, u int) {
 			switch {
 			case u == 256:
@@ -358,10 +359,10 @@ func gobLayers(tier string) []Layer {
 					for b3 := 0; b3 < 256; b3++ {
 						b := []byte{byte(u), byte(b2), byte(b3)}
 						hostileCase(c, b, func() string { return fmt.Sprintf("payload % x", b) }, preFresh)
-						if u == 1 {
+						if u == 1 || thorough4 {
 							step := 1
 							for b4 := 0; b4 < 256; b4 += step {
-								bb := []byte{1, byte(b2), byte(b3), byte(b4)}
+								bb := []byte{byte(u), byte(b2), byte(b3), byte(b4)}
 								hostileCase(c, bb, func() string { return fmt.Sprintf("payload % x", bb) }, preFresh)
 							}
 						}
